@@ -98,7 +98,7 @@ func c16Relex(name, pre, slice string, pos encoding.StatementOffsetsType, base s
 	return c16Term(q.GraphName.(rdf.Term)), true
 }
 
-var reStructural = regexp.MustCompile(`^(\[|\(|\)|\[([ \t\r\n]|#[^\n]*\n)*\]|\(([ \t\r\n]|#[^\n]*\n)*\))$`)
+var reStructural = regexp.MustCompile(`^(\[|\(|\)|\[([ \t\r\n]|#[^\r\n]*[\r\n])*\]|\(([ \t\r\n]|#[^\r\n]*[\r\n])*\))$`)
 
 func c16Structural(slice string, want rdf.Term) string {
 	if !strings.HasPrefix(slice, "[") && !strings.HasPrefix(slice, "(") && !strings.HasPrefix(slice, ")") {
